@@ -2,6 +2,7 @@ package main
 
 import (
 	"fmt"
+	"hash/fnv"
 	"go/types"
 	"math/big"
 	"sort"
@@ -181,7 +182,7 @@ func (r *TypeReg) strConst(lit string) string {
 	if n, ok := r.strConsts[lit]; ok {
 		return n
 	}
-	n := fmt.Sprintf("strlit!%d", len(r.strOrder))
+	n := strLitName(lit)
 	r.strConsts[lit] = n
 	r.strOrder = append(r.strOrder, lit)
 	return n
@@ -231,8 +232,8 @@ func (r *TypeReg) prelude(specDefs string) string {
 	for _, h := range r.heapOrder {
 		fmt.Fprintf(&b, "(declare-const %s %s)\n", h, r.heapDecl[h])
 	}
-	for i, lit := range r.strOrder {
-		n := fmt.Sprintf("strlit!%d", i)
+	for _, lit := range r.strOrder {
+		n := strLitName(lit)
 		fmt.Fprintf(&b, "(declare-const %s Str) ; %q\n", n, lit)
 		fmt.Fprintf(&b, "(assert (= (slen %s) %s))\n", n, bvLit(int64(len(lit)), 64))
 		if len(lit) <= 64 {
@@ -245,7 +246,7 @@ func (r *TypeReg) prelude(specDefs string) string {
 	for i := 0; i < len(r.strOrder); i++ {
 		for j := i + 1; j < len(r.strOrder); j++ {
 			if len(r.strOrder[i]) == len(r.strOrder[j]) && len(r.strOrder[i]) > 64 {
-				fmt.Fprintf(&b, "(assert (not (= strlit!%d strlit!%d)))\n", i, j)
+				fmt.Fprintf(&b, "(assert (not (= %s %s)))\n", strLitName(r.strOrder[i]), strLitName(r.strOrder[j]))
 			}
 		}
 	}
@@ -369,4 +370,11 @@ func ite(c, a, b string) string {
 		return a
 	}
 	return "(ite " + c + " " + a + " " + b + ")"
+}
+
+// strLitName: a name for a string literal constant that depends only on its content.
+func strLitName(lit string) string {
+	h := fnv.New64a()
+	h.Write([]byte(lit))
+	return fmt.Sprintf("strlit!%d!%x", len(lit), h.Sum64())
 }
